@@ -211,7 +211,8 @@ func vh_C07_L1_abandoned_does_not_block() {
 // probe and T3 keep the association alive through the zero-window episode.
 func vh_C02_L2_zero_window() {
 	il := vPick(2) == 1
-	a, b := vPair(vAssocOpts{interleaving: il, pickTSN: true, recvBuf: 2})
+	mtu := []uint32{0, 36}[vPick(2)] // default (chunks are bundled) or one chunk per packet
+	a, b := vPair(vAssocOpts{interleaving: il, pickTSN: true, recvBuf: 2, mtu: mtu})
 	s, err := a.OpenStream(1, PayloadTypeWebRTCBinary)
 	vassert(err == nil, "open stream")
 	a.rwnd = 2 // what the peer advertised at the handshake
@@ -263,9 +264,57 @@ func vh_C02_L2_zero_window() {
 	vcover("end")
 }
 
+// C02.L2b: the zero-window probe for new data. The peer's window is smaller than the next
+// chunk and nothing is in flight: exactly one chunk must still leave (the probe), whatever
+// the MTU and however exactly the chunk fills the packet; afterwards the transfer completes.
+func vh_C02_L2_zero_window_probe_any_packet_size() {
+	il := vPick(2) == 1
+	mtu := []uint32{1200, 1191, 1400, 36}[vPick(4)]
+	a, b := vPair(vAssocOpts{interleaving: il, pickTSN: true, mtu: mtu})
+	s, err := a.OpenStream(1, PayloadTypeWebRTCBinary)
+	vassert(err == nil, "open stream")
+	size := int(a.maxPayloadSize) - vPick(2) // a chunk that fills the packet exactly, or one byte less
+	m := make([]byte, size)
+	m[0], m[size-1] = nondetU8(), nondetU8()
+	a.rwnd = uint32(vPick(2)) // 0 or 1: smaller than the chunk
+	_, werr := s.WriteSCTP(m, PayloadTypeWebRTCString)
+	vassert(werr == nil, "write accepted")
+	pkts := vWriterWake(a)
+	nData := 0
+	for _, raw := range pkts {
+		vassert(len(raw) <= int(mtu), "a packet never exceeds the MTU")
+		if p := vDecode(raw); p != nil {
+			for _, c := range p.chunks {
+				if _, ok := c.(*chunkPayloadData); ok {
+					nData++
+				}
+			}
+		}
+	}
+	vassert(nData == 1, "with a closed peer window and nothing in flight one chunk is sent as the window probe")
+	vassert(a.t3RTX.isRunning(), "and T3 runs for it")
+	for _, raw := range pkts {
+		vInbound(b, raw)
+	}
+	net := &vNet{a: a, b: b, dropAt: -1, dupAt: -1}
+	net.settle(8, 2)
+	bs := b.streams[1]
+	vassert(bs != nil, "receiver has the stream")
+	if bs != nil {
+		got, _ := vReadAll(bs, make([]byte, 1500))
+		vassert(len(got) == 1 && len(got[0]) == size && got[0][0] == m[0] && got[0][size-1] == m[size-1], "the probe delivers the message")
+	}
+	vassert(a.inflightQueue.size() == 0 && a.pendingQueue.size() == 0, "the sender is drained")
+	vcover("end")
+}
+
 // C02.L3..L5: the progress mechanisms named by the property, as obligations of their own.
 func vh_C02_L3_t3_retransmits_first_outstanding() { vh_C06_L2_abandoned_never_resent() }
 func vh_C02_L4_gap_fill_at_zero_window()          { vh_C11_L2_credit_and_full_buffer() }
+
+// C02.L6: a write that fails (blocking write past its deadline) leaves no hole in the
+// stream's sequence space, so later messages stay deliverable (same obligation as C18.L2).
+func vh_C02_L6_failed_write_leaves_no_hole() { vh_C18_L2_block_write_gate() }
 
 // C02.L5: T3 never gives up: with every packet lost, each of 10 consecutive expiries puts
 // the outstanding reliable chunk on the wire again and leaves the timer running.
